@@ -18,6 +18,8 @@
 //	long      containers holding more real elements than the pre-sizing cap max(1024, MaxInitLen), honest or
 //	          hostile claimed length, into fast-path and reflection slice / map destinations (zero-size element types too)
 //	bigscalar one string of 2..6 MB with its honest length, over []byte and every io.Reader transport
+//	chunks    cbor: indefinite-length strings of 32000..100000 small chunks, ValidateUnicode on and off
+//	tagrun    cbor: 6 million consecutive tags before a value (skipped tags, nested tags 2..5)
 //	symbols   binc: a symbol definition of 1..64 KiB (1- / 2-byte id) followed by up to 300000 references, into
 //	          []string / []interface{} / [][]byte / map keys: allocation must stay linear in the input
 //	rand      random bytes, 0..64 long
@@ -129,7 +131,8 @@ func decodeOnce(f hx.Fmt, o hx.Opts, h codec.Handle, t reflect.Type, in []byte) 
 			cls = 11
 		}
 	}()
-	dst := reflect.New(t).Interface()
+	dst, done := hx.MakeDest(t)
+	defer done()
 	a0 := heapAllocs()
 	t0 := time.Now()
 	d := hx.NewDecoder(f, o, h, in)
@@ -508,7 +511,8 @@ func randomBytes(c *ctx, n int) {
 // long: containers with more real elements than the pre-sizing cap max(1024, MaxInitLen), with an
 // honest or a hostile claimed length, into slice / map destinations (fast-path and reflection ones)
 func longStream(c *ctx, n int) {
-	names := []string{"[]S2", "[][]int", "[]struct{}", "[]iface", "[]int", "[]string", "[][]byte", "[]bool", "[]map[struct{}]struct{}", "[][0]int", "iface", "Raw", "map[int]string", "map[iface]iface"}
+	names := []string{"[]S2", "[][]int", "[]struct{}", "[]iface", "[]int", "[]string", "[][]byte", "[]bool", "[]map[struct{}]struct{}", "[][0]int", "iface", "Raw", "map[int]string", "map[iface]iface",
+		"chan int", "chan int/recv", "chan []byte"}
 	for _, f := range hx.All {
 		for _, name := range names {
 			d, di := hx.DestByName(name)
@@ -520,7 +524,7 @@ func longStream(c *ctx, n int) {
 				var elem *hx.Node
 				switch {
 				case isMap:
-				case d.T.Kind() == reflect.Slice:
+				case d.T.Kind() == reflect.Slice || d.T.Kind() == reflect.Chan:
 					elem = hx.GenFor(c.r, f, d.T.Elem(), 0)
 				default:
 					elem = hx.U(1)
@@ -651,6 +655,82 @@ func symbolStream(c *ctx, n int) {
 	}
 }
 
+// chunks: cbor indefinite-length text / byte strings made of very many small chunks (time must stay linear in the
+// input whatever ValidateUnicode says), over both transports, decoded and skipped
+func chunkStream(c *ctx, n int) {
+	f := hx.Cbor
+	for _, name := range []string{"string", "iface", "[]byte", "Raw", "SkipDst", "S1"} {
+		_, di := hx.DestByName(name)
+		for q := 0; q < n; q++ {
+			for _, vu := range []bool{true, false} {
+				chunks := c.r.PickInt(32000, 100000)
+				pre, unit := []byte{0x7f}, []byte{0x62, 0xc3, 0xa9} // text chunk "é"
+				switch c.r.Intn(3) {
+				case 1:
+					unit = []byte{0x63, 'a', 'b', 'c'}
+				case 2:
+					if name == "[]byte" || name == "iface" || name == "Raw" {
+						pre, unit = []byte{0x5f}, []byte{0x41, 0x00}
+					}
+				}
+				suf := []byte{0xff}
+				if name == "SkipDst" || name == "S1" {
+					key := "zz"
+					if name == "S1" {
+						key = "B"
+					}
+					pre = append(hx.MapStr(f, key), pre...)
+				}
+				o := hx.Opts{ValidateUnicode: vu}
+				switch c.r.Intn(3) {
+				case 1:
+					o.IO, o.RBS = true, 0
+				case 2:
+					o.IO, o.RBS = true, 4096
+				}
+				c.jobs = append(c.jobs, Job{F: int(f), D: di, O: o, X: hex.EncodeToString(pre), XR: chunks, XU: hex.EncodeToString(unit), XS: hex.EncodeToString(suf), Kind: "chunks", Ex: -1})
+			}
+		}
+	}
+}
+
+// tagrun: cbor: millions of consecutive tags in front of one value (no container is entered, MaxDepth does not
+// apply): skipped tags (55799; any unregistered tag under SkipUnexpectedTags) must be looped over, and the
+// content of tags 2..5 is read as the NEXT item, not by re-entering the tag decoder (F02-5)
+func tagRun(c *ctx, n int) {
+	f := hx.Cbor
+	type pat struct {
+		pre, unit, suf string
+		st             bool
+	}
+	pats := []pat{
+		{"", "d9d9f7", "07", false},
+		{"", "c6", "07", true},
+		{"", "d9d9f7c6", "07", true},
+		{"c482c4", "82", "", false}, // decimal fraction whose exponent is a decimal fraction whose ... (F02-5)
+		{"c582c5", "82", "", false},
+		{"", "c482", "0102", false},
+		{"", "c2", "4105", false},
+	}
+	for q := 0; q < n; q++ {
+		for _, p := range pats {
+			for _, name := range []string{"iface", "float64", "[]iface", "Raw"} {
+				_, di := hx.DestByName(name)
+				pre, _ := hex.DecodeString(p.pre)
+				if name == "[]iface" {
+					pre = append(hx.Arr1(f), pre...)
+				}
+				o := hx.Opts{SkipTags: p.st}
+				if c.r.Chance(1, 3) {
+					o.IO, o.RBS = true, 4096
+				}
+				cnt := 6000000 * 3 / (len(p.unit) / 2) / 3
+				c.jobs = append(c.jobs, Job{F: int(f), D: di, O: o, X: hex.EncodeToString(pre), XR: cnt, XU: p.unit, XS: p.suf, Kind: "tagrun", Ex: -1})
+			}
+		}
+	}
+}
+
 var prefixDests = []string{"iface", "S1", "[]byte", "Raw", "map[string]iface", "[]int", "string", "S3-toarray", "[]iface", "time", "[4]int", "RawExt"}
 
 func prefixes(c *ctx, ndest int) {
@@ -687,28 +767,9 @@ func coqOpts(o hx.Opts) string {
 	return fmt.Sprintf("(mkopts %s %s %s %s %s)", vh.CoqZ(int64(o.MaxDepth)), vh.CoqBool(o.Signed), vh.CoqBool(o.RawToString), vh.CoqBool(o.SkipTags), vh.CoqBool(o.WriteExt))
 }
 
-// cborTag45: the input holds a head of tag 4 / 5 (decimal fraction, bigfloat), which Wire/Cbor.v does not model
-func cborTag45(in []byte) bool {
-	for i, b := range in {
-		if b == 0xc4 || b == 0xc5 {
-			return true
-		}
-		if (b == 0xd8 || b == 0xd9 || b == 0xda || b == 0xdb) && i+1 < len(in) {
-			w := map[byte]int{0xd8: 1, 0xd9: 2, 0xda: 4, 0xdb: 8}[b]
-			if i+w < len(in) && (in[i+w] == 4 || in[i+w] == 5) {
-				return true
-			}
-		}
-	}
-	return false
-}
-
 func (c *ctx) modelCase(j Job, in []byte, cls, nread int) {
 	k := modelKind(j)
 	if k == 0 || len(in) > 300 || c.nmod >= c.maxm {
-		return
-	}
-	if hx.Fmt(j.F) == hx.Cbor && k == 1 && cborTag45(in) {
 		return
 	}
 	c.nmod++
@@ -885,6 +946,8 @@ func main() {
 	nLong := flag.Int("long", 1, "long-container documents per (format, destination)")
 	nBig := flag.Int("big", 1, "multi-MB scalars per (format, destination)")
 	nSym := flag.Int("symbols", 1, "binc symbol definition + references documents per (destination, symbol length)")
+	nChunk := flag.Int("chunks", 1, "cbor many-chunk indefinite strings per (destination, ValidateUnicode)")
+	nTag := flag.Int("tagrun", 1, "cbor runs of millions of tags per (pattern, destination)")
 	workers := flag.Int("workers", 8, "worker subprocesses")
 	maxModel := flag.Int("model", 1500, "model cases at most")
 	worker := flag.String("worker", "", "(internal) job file")
@@ -906,6 +969,8 @@ func main() {
 	longStream(c, *nLong)
 	bigScalar(c, *nBig)
 	symbolStream(c, *nSym)
+	chunkStream(c, *nChunk)
+	tagRun(c, *nTag)
 	// shuffle the single jobs so that shards are balanced, keep the blocks at the end spread round-robin
 	for i := len(c.jobs) - 1; i > 0; i-- {
 		k := c.r.Intn(i + 1)
